@@ -105,7 +105,9 @@ impl Board {
         let iterable = self.legals();
 
         let mut result: usize = 0;
-        if depth == 1 {
+        if depth == 0 {
+            1
+        } else if depth == 1 {
             iterable.len()
         } else {
             let mut next_board = Board::standard();
